@@ -4,6 +4,7 @@ package main
 // (chan_inv, close-once), go, defer, select, WaitGroup accounting.
 
 import (
+	"os"
 	"fmt"
 	"go/ast"
 	"go/token"
@@ -33,7 +34,11 @@ func (c *ExecCtx) lockKeyOf(st *State, e ast.Expr) (key string, idx *Term, field
 			b := c.eval(st, x.X)
 			u.sweep = sweep
 			u.quiet--
+			// fieldKey: "<pkgpath>::<Type>.<field>" (what guarded_by / lockinv name)
 			tn := shortTypeName(derefType(b.Ty))
+			if n, _ := structOf(derefType(b.Ty)); n != nil && n.Obj().Pkg() != nil {
+				tn = n.Obj().Pkg().Path() + "::" + n.Obj().Name()
+			}
 			return b.T.String() + "." + x.Sel.Name, nil, tn + "." + x.Sel.Name
 		}
 		if v, ok := c.info.Uses[x.Sel].(*types.Var); ok {
@@ -232,8 +237,18 @@ func (c *ExecCtx) yield(st *State) {}
 // havocGuarded forgets the fields guarded by the lock field just acquired.
 func (c *ExecCtx) havocGuarded(st *State, fieldKey string, lockExpr ast.Expr) {
 	u := c.u
+	if os.Getenv("GOVC_DEBUG") != "" {
+		fmt.Fprintln(os.Stderr, "havocGuarded fieldKey", fieldKey)
+	}
+	fkPkg, fkName, qualified := strings.Cut(fieldKey, "::")
+	if !qualified {
+		fkPkg, fkName = "", fieldKey
+	}
 	for _, g := range u.eng.specs.Guards {
-		if g.Lock != fieldKey && g.Lock != fieldKey+"[]" {
+		if g.Lock != fkName && g.Lock != fkName+"[]" {
+			continue
+		}
+		if qualified && g.PkgPath != fkPkg {
 			continue
 		}
 		for _, f := range g.Fields {
@@ -338,7 +353,11 @@ func (c *ExecCtx) lockInv(st *State, fieldKey string, lockExpr ast.Expr, pos tok
 	if c.pkg == nil {
 		return
 	}
-	invs := u.eng.specs.LockInvs[c.pkg.PkgPath+"."+fieldKey]
+	fkPkg, fkName, qualified := strings.Cut(fieldKey, "::")
+	if !qualified {
+		fkPkg, fkName = c.pkg.PkgPath, fieldKey
+	}
+	invs := u.eng.specs.LockInvs[fkPkg+"."+fkName]
 	if len(invs) == 0 {
 		return
 	}
